@@ -59,7 +59,7 @@ def seg_project(evs, what):
 
 def judge(hid, line, lifetimes, h, mline, synth_val, project="full"):
     """-> dict(corr=[...], c02=[...], c03=[...], c12=[...], c17=[...], crashed=bool, nontrivial=tuple)"""
-    J = dict(corr=[], c02=[], c03=[], c12=[], c17=[], c05=[], c06=[], crashed=False)
+    J = dict(corr=[], c01=[], c02=[], c03=[], c11=[], c12=[], c17=[], c05=[], c06=[], crashed=False)
     case = dict(id=hid, history=line)
     recs = h["recs"]
     if h["child"] and not h["child"].startswith("exit:0"):
@@ -141,6 +141,18 @@ def judge(hid, line, lifetimes, h, mline, synth_val, project="full"):
                 if t[1] not in live: J["c12"].append(dict(case=case, what="munmap of something the injector did not allocate (or twice)", event=e))
                 elif live[t[1]] != t[2]: J["c12"].append(dict(case=case, what="munmap with a length different from the mapping's", event=e, mapped_len=live[t[1]])); live.pop(t[1])
                 else: live.pop(t[1])
+        # C11/C12: exactly one mapping is kept per completed installation; it lies within reach of the function
+        if r.tag != "EXIT" and op and op.startswith(("I:", "T:")) and r.res.startswith("installed"):
+            alive = sum(1 for x in recs if x.l == r.l and x.tag != "EXIT" and recs.index(x) <= recs.index(r)
+                        and ops_flat.get((x.l, x.tag), "").startswith(("I:", "T:")))
+            if len(live) != alive:
+                v = dict(case=case, what=f"{len(live)} trampoline mappings live after {alive} completed installations at L{r.l} {r.tag}: a rejected placement was left mapped (or a kept one lost)", live=dict(live))
+                J["c11"].append(v); J["c12"].append(v)
+            kept = [int(e.split()[3], 16) for e in r.ev if e.startswith("MM") and e.split()[3] != "-" and e.split()[3] in live]
+            tgt = h["addr"].get(op.split(":")[1])
+            for a in kept:
+                if tgt is not None and abs(a - tgt) >= 0x8000000:
+                    J["c11"].append(dict(case=case, what=f"trampoline kept at {a:x}, {abs(a - tgt):x} bytes from the function at {tgt:x}: beyond the reach the allocator promises"))
         # C17: every byte that changed since the previous boundary is covered by a flush that saw the final byte
         now = {}
         for t in targets:
@@ -170,6 +182,11 @@ def judge(hid, line, lifetimes, h, mline, synth_val, project="full"):
                 if r.tag == "EXIT" or not any(s <= a and b <= e for s, e in slots):
                     J["c03"].append(dict(case=case, what=f"executable memory differs at {a:x}-{b:x} at L{r.l} {r.tag}" + (" (after scope exit)" if r.tag == "EXIT" else " outside the named entry slots"), named=sorted(named)))
         # C02
+        if r.tag == "EXIT" and r.res.startswith("panic:nomem"):
+            for t in targets:
+                if r.snap.get(t) != h["orig"].get(t):
+                    J["c11"].append(dict(case=case, what=f"installation failed for lack of memory but the bytes of {t} changed: {r.snap.get(t)}"))
+            if r.jits: J["c11"].append(dict(case=case, what="installation failed for lack of memory but a mapping is still there", jits=list(r.jits)))
         if r.tag == "EXIT":
             for t in targets:
                 if r.snap.get(t) != h["orig"].get(t):
@@ -190,6 +207,7 @@ def judge(hid, line, lifetimes, h, mline, synth_val, project="full"):
                     J["c02"].append(dict(case=case, what=f"while installed, at L{r.l} {r.tag}: {t}(7) = {r.vals.get(t)}, the latest installation says {want}"))
         elif J["crashed"] and r is recs[-1]:
             J["c02"].append(dict(case=case, what=f"process died ({h['child']}) calling the targets at L{r.l} {r.tag}"))
+            J["c01"].append(dict(case=case, what=f"process died ({h['child']}) calling a faked function at L{r.l} {r.tag}"))
     # ---- C05: panics, aborts, lock; C06/C07: the counting semantics, lifetime by lifetime
     if h["child"] and h["child"].startswith("signal:"):
         J["c05"].append(dict(case=case, what=f"process terminated by {h['child']} (abort or crash) during the history"))
@@ -238,6 +256,16 @@ def judge(hid, line, lifetimes, h, mline, synth_val, project="full"):
         J["c12"].append(dict(case=case, what="anonymous rwx mappings differ before/after the history", end=h["end"]))
     if J["crashed"] and not recs:
         J["corr"].append(dict(case=case, what="process died before the first boundary", detail=h["child"]))
+    # C01: a crash inside an installation, or a call that does not reach the fake
+    if J["crashed"]:
+        done = {(r.l, r.tag) for r in recs}
+        for li, ops in enumerate(lifetimes):
+            if (li, "EXIT") in done: continue
+            nxt = len([1 for (l, t) in done if l == li])
+            if nxt < len(ops) and ops[nxt].startswith(("I:", "T:")) and (li == 0 or (li - 1, "EXIT") in done):
+                J["c01"].append(dict(case=case, what=f"process died ({h['child']}) inside the installation {ops[nxt]} (L{li} OP{nxt})"))
+            break
+    J["c01"] += [v for v in J["c02"] if v["what"].startswith("while installed")]
     J["shape"] = (len(lifetimes), tuple(sorted(set(op.split(":")[0] + ":" + (op.split(":")[2] if op.startswith("I:") else "") for ops in lifetimes for op in ops))),
                   any(len([o for o in ops if o.startswith("I:") and o.split(":")[1] == t]) > 1 for ops in lifetimes for t in set(o.split(":")[1] for o in ops if o.startswith("I:"))))
     return J
